@@ -140,7 +140,11 @@ def _chain(a):
     from penman.graph import Graph
     g = a['g']
     r = (g - Graph(g.triples[-3:])) | Graph([('zz', ':instance', 'Z'), ('zz', ':r', 'a'), ('a', ':q', 'zz')])
-    return [r.variables(), [tuple(t) for t in r.edges()], [tuple(t) for t in r.attributes()], r.reentrancies(), r.top]
+    f = Graph(list(r.triples), top=r.top)       # an identical graph without any call history
+
+    def q(x):
+        return [x.variables(), [tuple(t) for t in x.edges()], [tuple(t) for t in x.attributes()], x.reentrancies(), x.top]
+    return {'selfcheck': [q(r), q(f)]}
 
 
 def _bare_write(a):
@@ -181,11 +185,13 @@ def run_one(cname, aname, C=None, amr=None):
 def run_battery():
     from penman.models.amr import model as amr
     C = calls()
+    import os
     out = {}
-    for aname in list(CORPUS) + list(MARKERLESS):
-        for cname, (needs, fn) in C.items():
-            if applicable(cname, needs, aname):
-                out[f'{cname}@{aname}'] = invoke(fn, build(aname), amr)
+    pairs = [(aname, cname) for aname in list(CORPUS) + list(MARKERLESS) for cname in C if applicable(cname, C[cname][0], aname)]
+    if os.environ.get('BATTERY_ORDER') == 'rev':
+        pairs.reverse()
+    for aname, cname in pairs:
+        out[f'{cname}@{aname}'] = invoke(C[cname][1], build(aname), amr)
     return out
 
 
